@@ -763,8 +763,11 @@ def check_session(prog, ses, cfg, rec, where):
         for fam in ["intersect", "populate", "dest", "project"]:
             fkeys = [k for k in keys if fam_of[k] == fam]
             result = None
+            strict_tab = {(k, lab): compat(k, lab, False) for k in fkeys for lab in range(NLABELS)}
             for tolerant in (False, True):
-                table = {(k, lab): compat(k, lab, tolerant) for k in fkeys for lab in range(NLABELS)}
+                # second pass: a (role, label) pair may also agree under P11's reading of fiber_pos
+                table = strict_tab if not tolerant else {kl: (None if msg is None else compat(kl[0], kl[1], True))
+                                                         for kl, msg in strict_tab.items()}
                 for perm in itertools.permutations(range(NLABELS), len(fkeys)):
                     if all(table[(k, lab)] is None for k, lab in zip(fkeys, perm)) and \
                             not any(nonempty(fam, lab) for lab in range(NLABELS) if lab not in perm):
@@ -776,7 +779,7 @@ def check_session(prog, ses, cfg, rec, where):
             shown = {f"{n}_{lab}": traces[(r, f"{n}_{lab}")].brief() for n in names for lab in range(NLABELS)
                      if traces[(r, f"{n}_{lab}")].rows}
             if result is None:
-                why = {k: {lab: table[(k, lab)] for lab in range(NLABELS) if nonempty(fam, lab)} for k in fkeys}
+                why = {k: {lab: strict_tab[(k, lab)] for lab in range(NLABELS) if nonempty(fam, lab)} for k in fkeys}
                 exp = {k: ([(p, e[0], _exact_rows(e[1], False, False) if e[0] == "exact" else sorted(e[1]))
                             for p, e in expected(k, "rows")] +
                            ([("writes:",)] + [(p, e[0], _exact_rows(e[1], False, False) if e[0] == "exact"
@@ -869,7 +872,7 @@ def kernel_cases(draw):
     if len(spec["order"]) == 1 and draw(st.sampled_from([True, True, False])):
         # Hypothesis favours the smallest nest; give multi-level nests a second chance
         spec = draw(K.kernel_specs(max_shape=5, floats=False, out_odds=(3, 2)))
-    if spec["out"] and draw(st.sampled_from([True, False, False])):
+    if spec["out"] and draw(st.sampled_from([True, False])):
         # reduction ranks outermost: every output fiber is revisited, so later visits insert
         # below the coordinates stored by earlier ones
         red = [r for r in spec["order"] if K.base_var(r) not in spec["out"]]
@@ -915,7 +918,7 @@ def leaf_elems(draw, shape, p_empty=10):
 
 @st.composite
 def opnest_cases(draw):
-    op = draw(st.sampled_from(OPS + ["project", "lshift"]))
+    op = draw(st.sampled_from(OPS + ["project", "project", "lshift"]))
     S = draw(st.sampled_from([2, 3, 4, 4, 5, 6]))
     outer = None
     if draw(st.sampled_from([True, True, False])):
@@ -979,8 +982,40 @@ def check_opnest(case, rec):
     rec.cls("project-interval", bool(nest["proj"]) and nest["proj"]["interval"] is not None)
 
 
+def _small_fibers(states):
+    """every 1-level fiber over shape 3 whose coordinates are absent / hold one of `states`"""
+    out = []
+    for combo in itertools.product([None] + list(states), repeat=3):
+        out.append([[c, v] for c, v in enumerate(combo) if v is not None])
+    return out
+
+
+def enumerate_small(tier):
+    """Finite sub-domain run completely: one operator, no outer loop, shape 3, every placement of
+    absent / explicit zero / non-zero elements in both operands."""
+    ths = [2, 1000] if tier == "quick" else [2, 3, 5, 1000]
+    cfg = {"thresholds": ths, "preregister": 0, "consume": "end"}
+    src = _small_fibers([0, 1])
+    for op in (["and", "lshift"] if tier == "quick" else ["and", "lf", "lshift"]):
+        for a in src:
+            if op == "lshift":
+                # destination: absent / explicit zero / -1 (the body adds 1: -1 becomes the default and is removed)
+                for z in _small_fibers([0, -1]):
+                    yield {"nest": {"op": op, "shape": 3, "outer": None, "proj": None, "z": z, "z_shared": True,
+                                    "inst": [{"a": a, "plan": [["add", 1]] * 3}]}, "cfg": cfg}
+            else:
+                for b in src:
+                    yield {"nest": {"op": op, "shape": 3, "outer": None, "proj": None,
+                                    "inst": [{"a": a, "b": b}]}, "cfg": cfg}
+
+
 PARTS = [Part("kernels", kernel_cases(), check_kernel, n_quick=700, n_thorough=5000),
-         Part("opnests", opnest_cases(), check_opnest, n_quick=900, n_thorough=6000)]
+         Part("opnests", opnest_cases(), check_opnest, n_quick=900, n_thorough=6000),
+         Part("small", None, check_opnest, n_quick=0, n_thorough=0, enumerate=enumerate_small,
+              exhaustive_note="a & b and z << a (thorough: also leader-follower) over ALL pairs of 1-level fibers of "
+                              "shape 3 whose coordinates are absent / explicit zero / non-zero (27 x 27 pairs per "
+                              "operator; destination states absent / explicit zero / -1 with body += 1), no outer "
+                              "loop, thresholds 2 and 1000 (thorough: all four)")]
 
 
 def coverage_warnings(rec):
@@ -990,10 +1025,10 @@ def coverage_warnings(rec):
         part = k.split(":", 1)[0]
         if k.split(":", 1)[1].startswith("levels"):
             tot[part] = tot.get(part, 0) + v
-    for k, floor in (("kernels:inserting-populate", 0.05), ("kernels:stored-empty-element", 0.2),
+    for k, floor in (("kernels:inserting-populate", 0.03), ("kernels:stored-empty-element", 0.2),
                      ("kernels:rows-intersect", 0.3), ("kernels:rows-populate_write", 0.2),
                      ("kernels:lines>5", 0.12), ("kernels:head-left-under-finger", 0.15),
-                     ("opnests:inserting-populate", 0.1), ("opnests:rows-project", 0.1),
+                     ("opnests:inserting-populate", 0.1), ("opnests:rows-project", 0.08),
                      ("opnests:rows-populate_read", 0.1), ("opnests:stored-empty-element", 0.3),
                      ("opnests:created-then-removed", 0.05)):
         n = max(1, tot.get(k.split(":", 1)[0], 0))
